@@ -168,7 +168,100 @@ def gen_c01(rng, tier):
     return out
 
 
+# ------------------------------------------------------------------------------- C02
+HQ_KINDS = ["hqwt256", "hqwt512", "hqwt256pfs", "hqwt512pfs"]
+
+
+def huff_case(rng, cid, kind, elem, tier, family, n=None, sweep=None, alpha_size=None, mix=None):
+    width = WIDTH[elem]
+    n = C.pick_len(rng, tier) if n is None else n
+    # symbols are bounded by memory (table indexed by symbol value)
+    cap = min(2 ** width - 1, rng.choice([3, 4, 5, 16, 17, 64, 255, 300, 1000, 5000]))
+    k = alpha_size or rng.choice([1, 2, 3, 4, 5, 6, 7, 8, 9, 10, 13, 16, 17, 22, 40, 64, 65])
+    k = min(k, cap + 1)
+    alpha = sorted(rng.sample(range(cap + 1), k))
+    seq, mix = C.gen_seq(rng, n, alpha, mix or rng.choice(["uniform", "geometric", "fib", "fib", "runs", "rare", "constant", "periodic"]))
+    path = rng.choice(["new", "from", "collect"])
+    if sweep is None:
+        sweep = n <= 2100
+    c = Case(cid, tags=dict(kind=kind, elem=elem, n=n, alphabet=len(set(seq)), mix=mix, path=path, trivial=(n == 0),
+                            cost=n * (20 if sweep else 3) * 4))
+    c.add(C.new_line(kind, elem, path, seq))
+    c.add("Q codes")
+    extra = []
+    C.tree_queries(c, rng, seq, width, family, sweep=sweep)
+    if width == 128 and seq:
+        # a symbol that differs from a present one only above bit 64
+        s0 = rng.choice(seq)
+        for q in ["Q rank %d %d" % (s0 + 2 ** 64, rng.randrange(n + 1)), "Q select %d 0" % (s0 + 2 ** 64), "Q rank %d 0" % (s0 + 2 ** 127)]:
+            c.add(q)
+    c.seq = seq
+    return c
+
+
+def gen_c02(rng, tier):
+    out = []
+    k = 0
+    for _ in range(sizes(tier, 80, 400)):
+        kind = HQ_KINDS[k % 4]
+        elem = ELEMS[(k // 4) % 6]
+        c = huff_case(rng, "c02-%d" % k, kind, elem, tier, "hq")
+        c.model = c.tags["n"] <= 5000
+        out.append(c)
+        k += 1
+    # alphabet sizes not of the form 3k+1 (incomplete 4-ary trees), deep codes
+    for a in [2, 3, 5, 6, 8, 9, 11, 12, 14, 20, 33]:
+        c = huff_case(rng, "c02-a%d" % a, rng.choice(HQ_KINDS), "u16", tier, "hq", n=rng.choice([200, 700, 1500]), alpha_size=a, mix=rng.choice(["fib", "uniform", "geometric"]))
+        out.append(c)
+    for kind in HQ_KINDS:
+        c = Case("c02-empty-%s" % kind, tags=dict(kind=kind, n=0, trivial=True))
+        c.add("NEW %s u32 %s 0" % (kind, rng.choice(["new", "from", "collect"])))
+        for l in ["Q len", "Q isempty", "Q nlevels", "Q get 0", "Q rank 0 0", "Q rank 0 1", "Q select 0 0", "Q select 7 3", "Q rankp 0 0", "Q select 0 %d" % MAXU]:
+            c.add(l)
+        out.append(c)
+    return out
+
+
+# ------------------------------------------------------------------------------- C03
+def gen_c03(rng, tier):
+    out = []
+    k = 0
+    for _ in range(sizes(tier, 50, 250)):
+        elem = ELEMS[k % 6]
+        c = tree_case(rng, "c03-w%d" % k, "wt", elem, tier, "w")
+        c.model = c.tags["n"] <= 4000
+        out.append(c)
+        k += 1
+    for _ in range(sizes(tier, 50, 250)):
+        elem = ELEMS[k % 6]
+        c = huff_case(rng, "c03-h%d" % k, "hwt", elem, tier, "hw")
+        c.model = c.tags["n"] <= 4000
+        out.append(c)
+        k += 1
+    for kind in ["wt", "hwt"]:
+        c = Case("c03-empty-%s" % kind, tags=dict(kind=kind, n=0, trivial=True))
+        c.add("NEW %s u32 %s 0" % (kind, rng.choice(["new", "from", "collect"])))
+        for l in ["Q len", "Q isempty", "Q nlevels", "Q get 0", "Q rank 0 0", "Q rank 0 1", "Q select 0 0", "Q select 7 3", "Q select 0 %d" % MAXU]:
+            c.add(l)
+        out.append(c)
+    # one distinct symbol, two symbols
+    for kind in ["wt", "hwt"]:
+        for vals in [[7] * 5, [0] * 3, [3, 9, 3, 3, 9], [0, 1], [2 ** 40, 5, 2 ** 40]]:
+            c = Case("c03-small-%s-%d" % (kind, k), tags=dict(kind=kind, n=len(vals)))
+            k += 1
+            if kind == "hwt" and max(vals) > 10000:
+                continue
+            c.add(C.new_line(kind, "u64", "from", vals))
+            if kind == "hwt":
+                c.add("Q codes")
+            C.tree_queries(c, rng, vals, 64, "w" if kind == "wt" else "hw", sweep=True)
+            out.append(c)
+    return out
+
+
 PROPS = {
+    "C02": dict(gen=gen_c02),
+    "C03": dict(gen=gen_c03),
     "C13": dict(gen=gen_c13),
     "C05": dict(gen=gen_c05),
     "C01": dict(gen=gen_c01),
